@@ -87,6 +87,50 @@ SEEDS2 = {
  ('C20','B'): ('action/ons', 'renew callback stops after the first sub-domain: a parent with two sub-domains and a renewal'),
 }
 
+# Round 3 (written against e691428; stored as variants G/H; sources in /tmp/wt3_<Cxx>/_seed)
+SEEDS3 = {
+ ('C01','A'): ('action/governance', 'EXPIRE_VOTES refuses a non-validator sender; the block-internal expiry uses the node\'s own address: a replica that is not a validator (or has power 0) next to a validator replica, and a proposal in Voting that runs past its deadline'),
+ ('C01','B'): ('data/evidence', 'CleanTracker ranges the request map directly: two ALLEGATION transactions against the same validator under different request ids delivered in the same block (the existence check cannot see the pending first one); which duplicate survives follows Go map order (about 1 range in 8 flips), so several replicas or repeated runs are needed'),
+ ('C02','A'): ('action/staking', 'one stake address with two or more UNSTAKE requests maturing at the same height (two in one block, or two validators sharing the stake address); seen MaturityTime blocks later at the block-end maturity step'),
+ ('C02','B'): ('app', 'matureDelegationRewards no longer re-aims the delegation stores: a reward withdrawal matures in a block at whose begin the delegation pool balance is zero (every delegator has undelegated): the payout is minted, the pending claim record stays'),
+ ('C03','A'): ('app', 'maturity walk split in a pay-out walk and a clearing walk, the pay-out walk stops at the first zero-amount record: somebody sends NETWORK_UNDELEGATE with amount 0 in the block of another delegator\'s undelegation, whose address sorts after it: that delegator\'s matured amount vanishes'),
+ ('C03','B'): ('app', 'NesterAccountKeeper.WithState aims the balance store at the previous call\'s state: a CheckTx that arrives after BeginBlock or a DeliverTx and before Commit debits its sender in the block being executed although the transaction is in no block'),
+ ('C04','A'): ('action/transfer', 'parsed-key cache that ignores the declared algorithm: the node has already parsed the signer\'s key under its genuine algorithm (an earlier genuine transaction on the same process), then a mutant with a changed keyType is offered'),
+ ('C04','B'): ('app', 'the consensus-path Validate is gated by the fork version: a forged transaction delivered in a block directly (proposer that skips its mempool check) on a chain that has not reached the fork height (or exactly at it)'),
+ ('C05','A'): ('app', 'a latch set by the first index lookup that finds no tx indexer installed: the node is killed after Tendermint saved a block that carries a transaction and before the application committed it; the handshake replay of the next start sets the latch and every executed transaction can then be replayed on that node byte for byte'),
+ ('C05','B'): ('action/olvm', 'journal dirty counter turned into a mark: an OLVM transaction carrying a value into an execution that fails burning all gas (INVALID, out of gas; not REVERT): the sender\'s nonce bump is never written, the same signed content in another encoding executes again'),
+ ('C06','A'): ('action/olvm', 'metered store swapped for an unmetered one while the EVM runs and not restored on the error path: an OLVM transaction that passes Validate and makes Apply fail (nonce ahead, gas limit above the block\'s remaining gas), followed in the same block by a transaction charged through BasicFeeHandling'),
+ ('C06','B'): ('action/olvm', 'Finality counts every transaction that reached its handler and AddLog stamps that count into the log: a transaction that fails in ProcessDeliver or ProcessFee followed in the same block by a contract call that emits an event; only the events of the later transaction differ (application hash equal)'),
+ ('C07','A'): ('app', 'proposal-store writes of governance handlers: a CheckTx of PROPOSAL_CREATE / FUND / VOTE / CANCEL / WITHDRAW_FUNDS that passes its ProcessCheck, between consensus calls of a block'),
+ ('C07','B'): ('identity', 'HandleStake pushes a new validator into the block-scoped election queue: CheckTx of a STAKE whose validator does not exist yet, after BeginBlock and before EndBlock of a block whose EndBlock distributes fees'),
+ ('C08','A'): ('identity', 'postponed stake cut kept in memory only: guilty verdict at EndBlock(H), process killed after Commit(H) or inside block H+1 before its Commit, restart: the cut of the validator record never happens'),
+ ('C08','B'): ('app', 'expiry of an overdue proposal queued one block late from an in-memory list: proposal in Voting whose deadline D passes undecided, process killed after Commit(D+1) or inside block D+2 and restarted'),
+ ('C09','A'): ('storage', 'versioned reads after a reopen: rotation that keeps older versions, at least two commits, reopen of the same database, GetVersioned / GetPrevious of a version older than the head'),
+ ('C09','B'): ('storage', 'k = v1 committed in block N; in block N+1 a write k = v2 reaches the block cache and a LATER committed tx session deletes k: k reads v1 again'),
+ ('C10','A'): ('identity', 'a validator elected in block H loses the election again in H+1 or H+2, before it has appeared in any LastCommitInfo: it is never sent a power-0 update'),
+ ('C10','B'): ('identity', 'staking options cached at the first end block: a later change of the minimum self delegation or the top validator count (governance config update, or the fork block) that matters for the election'),
+ ('C11','A'): ('action/staking', 'a second UNSTAKE of a stake address while an earlier unstake of the same address is still maturing is filed under the earlier entry\'s height: the later amount unlocks after fewer than MaturityTime blocks'),
+ ('C11','B'): ('data/delegation', 'AddToAddress writes the delegator\'s locked amount as the new validator/delegator amount: one stake address funding two validators; the locked record no longer equals what the delegator has locked and part of it can no longer be unstaked'),
+ ('C12','A'): ('action/network_delegation', 'store prefix left off "active" by the previous delegation-store use in the process: a reinvest delivered right after anybody\'s undelegation (same block, or CheckTx interleaving)'),
+ ('C12','B'): ('action/network_delegation', 'a delegation transaction that reads an existing non-zero record followed, with no read of a zero-valued record in between, by a delegate / reinvest / undelegate of an address that has no active record yet'),
+ ('C13','A'): ('data/rewards', 'after the reward years are over (burn-out) and with the rewards pool below the burn-out rate at the block where a calculator instance computes the amount'),
+ ('C13','B'): ('action/rewards', 'one validator: rewards mature, a first withdrawal w1 > 0, then a second withdrawal with remaining balance < w2 <= total ever matured'),
+ ('C14','A'): ('action/governance', 'ProposalStore.Exists ignores the finalised stores: a proposal that went all the way to finalised (or finalize-failed), then a PROPOSAL_CREATE carrying the same id'),
+ ('C14','B'): ('action/governance', 'DeleteAllFunds stops after the first record: a proposal with at least two distinct contributors that reaches finalisation through the vote'),
+ ('C15','A'): ('action/eth', 'the refund of a failed redeem goes to the Locker field of the report that crosses the threshold: more than two thirds of the witnesses report failure and the crossing report names somebody else'),
+ ('C15','B'): ('action/eth', 'the same witness reports twice on one ongoing tracker, first failure and then success, both before a threshold is reached'),
+ ('C16','A'): ('vm', 'the code record is deleted with a destroyed account: two live contracts with byte-identical runtime code, one of them self-destructs, a later transaction calls the other'),
+ ('C16','B'): ('vm', 'refund journal: the first refund operation after a snapshot that is later reverted is a SubRefund (SSTORE with original != 0, current == 0, new != 0 inside a reverting inner call)'),
+ ('C17','A'): ('action/olvm', 'Validate reads the sender through the shared EVM object cache: an OLVM transaction of S rejected by DeliverTx (or a CheckTx of S), then a native change of S\'s balance, then an executed OLVM transaction of S'),
+ ('C17','B'): ('action/olvm', 'no balance record is written for an account that holds nothing: an OLVM transaction after which the sender (value = balance - gas x price, all gas used) or a contract (pays out its whole balance) ends at exactly zero'),
+ ('C18','A'): ('action/ons', 'a correctly signed DOMAIN_PURCHASE for an existing top-level name that is not on sale, executed by DeliverTx in exactly the block of height ExpireHeight+1'),
+ ('C18','B'): ('vm', 'a correctly signed contract creation whose init code yields empty runtime code, committed in a block (the failure comes at Commit)'),
+ ('C19','A'): ('identity', 'one validator: frozen, released after the release time, then a second guilty verdict (or missed-votes finding): the old released record is reused and the validator is not frozen'),
+ ('C19','B'): ('action/evidence', 'a repeated ALLEGATION_VOTE by a voter whose address sorts above the address of an earlier voter on the same request is accepted and counted again'),
+ ('C20','A'): ('action/ons', 'a name listed at P1 and listed again at P2 without cancelling the sale in between; a purchase whose offering lies between the two prices, or a look at the sale price of the record'),
+ ('C20','B'): ('action/ons', 'a name past its expiry height and a purchase whose offering is strictly below the configured base domain price'),
+}
+
 def keep(pid, v, newv, pkg, needs, src):
     pass
 
@@ -139,6 +183,29 @@ if __name__ == '__main__':
                 'demo': {'file': 'demo_test.go.txt', 'belongs_in': pkg, 'run': 'see NOTES.txt (demonstrations in package app and action/ons are compiled with the non-test files only)'},
                 'needs_to_manifest': needs,
                 'confirmed': 'by me in the scratch worktree the change was written in (d87a36a): the demonstration passes without the change and fails with it; go test -vet=off -count=1 ./... keeps its failing set (seedverify.sh / seedverify_app.sh with WT_PREFIX=/tmp/wt2_)'}
+        old = {}
+        if os.path.exists(f'{dst}/meta.json'):
+            old = json.load(open(f'{dst}/meta.json'))
+        for k in ('checks_run', 'result'):
+            if k in old: meta[k] = old[k]
+        json.dump(meta, open(f'{dst}/meta.json', 'w'), indent=1)
+        print('kept', dst)
+
+    for (pid, v), (pkg, needs) in sorted(SEEDS3.items()):
+        src = f'/tmp/wt3_{pid}/_seed'
+        if not os.path.exists(f'{src}/{v}.diff'):
+            print('missing', pid, v); continue
+        newv = {'A': 'G', 'B': 'H'}[v]
+        dst = f'/verif/seeded/{pid}-{newv}'
+        os.makedirs(dst, exist_ok=True)
+        shutil.copy(f'{src}/{v}.diff', f'{dst}/patch.diff')
+        shutil.copy(f'{src}/demo_{v}_test.go', f'{dst}/demo_test.go.txt')
+        if os.path.exists(f'{src}/NOTES.txt'):
+            shutil.copy(f'{src}/NOTES.txt', f'{dst}/NOTES.txt')
+        meta = {'property': pid, 'variant': f'{newv} (round 3, {v} of its author)',
+                'demo': {'file': 'demo_test.go.txt', 'belongs_in': pkg, 'run': 'see NOTES.txt (demonstrations in package app and action/ons are compiled with the non-test files only)'},
+                'needs_to_manifest': needs,
+                'confirmed': 'by me in the scratch worktree the change was written in (e691428): the demonstration passes without the change and fails with it; go test -vet=off -count=1 ./... keeps its failing set (seedverify.sh / seedverify_app.sh with WT_PREFIX=/tmp/wt3_)'}
         old = {}
         if os.path.exists(f'{dst}/meta.json'):
             old = json.load(open(f'{dst}/meta.json'))
